@@ -1,10 +1,14 @@
 /-
-  C17 — the whole document of a plain (non-federation) export: decidable well-formedness of a
-  schema (`schemaOk`) with its soundness lemmas, and `parse_document`: the exported text of a
-  well-formed schema — type definitions, directive definitions, schema block — lexes and parses
-  to the document `describe` requires.
+  C17 — the whole exported document, every option set: decidable well-formedness of a schema
+  (`schemaOk`, for federation exports also `federationOk`) with soundness lemmas; `Lx_document`
+  (characters to tokens) and `parse_xDoc`: the exported text of a well-formed schema — type
+  definitions, directive definitions, schema block or `@link` schema extension — lexes and parses
+  to the document `xDoc`, which IS `describe`'s document for a plain export (`xDoc_plain`) and is
+  `describe`'s document up to the order of differently named directive applications always
+  (`xDoc_cDoc`, through `normDirs_swap`).
 -/
-import AGV.Lemmas.SdlDirDefs
+import AGV.Lemmas.SdlFedSchema
+import AGV.Lemmas.SdlSort
 namespace AGV.Lemmas.SdlSkeleton
 open AGV.Core AGV.Core.PAst AGV.Core.Sdl AGV.Model.Sdl AGV.Spec.Literal AGV.Spec.Lex AGV.Spec.Parse AGV.Spec.SdlParse AGV.Lemmas.SdlLex AGV.Lemmas.SdlValue AGV.Lemmas.SdlBlock
 
@@ -108,7 +112,33 @@ theorem dirDefOk_sound {d : DirDef} (h : dirDefOk d = true) : SkelDirDef d := by
 theorem systemDirectives_ok : systemDirectives.all dirDefOk = true := by decide
 
 
--- ------------------------------------------------------------------ the whole document of a plain export
+-- ------------------------------------------------------------------ what a federation export needs in addition
+
+def appsFedOk (a : Attrs) : Bool := a.dirs.all (fun d => !(d.name = s "tag") && !(d.name = s "inaccessible"))
+
+def ivFedOk (x : InputVal) : Bool := appsFedOk x.a
+
+def fieldFedOk (f : FieldDef) : Bool :=
+  appsFedOk f.a && f.args.all ivFedOk && !(f.name = s "_service") && !(f.name = s "_entities")
+
+def typeFedOk : TypeDef → Bool
+  | .scalar _ a _ => appsFedOk a
+  | .object n a _ _ fs | .interface n a _ _ fs => !(n = s "Any") && appsFedOk a && fs.all fieldFedOk
+  | .union n a _ => !(n = s "Any") && appsFedOk a
+  | .enum n a vs => !(n = s "Any") && appsFedOk a && vs.all (fun v => appsFedOk v.2)
+  | .input n a _ fs => !(n = s "Any") && appsFedOk a && fs.all ivFedOk
+
+/-- what a federation export needs beyond `schemaOk` (decidable): no composable directive
+    definition (`composeGroups` hands `describe` the names WITH their quotes, and the URL is
+    written unescaped); no field named `_service` / `_entities` and no non-scalar type named
+    `Any` (dropped on one side only); no custom directive application named `tag` or
+    `inaccessible` (the exporter writes the federation attributes after the custom applications
+    on fields and object types, `describe` lists them first: equal only up to the order of
+    differently named directives) -/
+def federationOk (S : Schema) : Bool :=
+  S.ddefs.all (fun d => d.composable.isNone) && S.types.all typeFedOk
+
+-- ------------------------------------------------------------------ the order of directive applications
 
 theorem nameLe_total (a b : Name) : (nameLe a b || nameLe b a) = true := by
   simp only [nameLe, Bool.or_eq_true, Bool.not_eq_true', decide_eq_false_iff_not]
@@ -119,6 +149,118 @@ theorem nameLe_total (a b : Name) : (nameLe a b || nameLe b a) = true := by
 theorem nameLe_trans (a b c : Name) (h1 : nameLe a b = true) (h2 : nameLe b c = true) : nameLe a c = true := by
   simp only [nameLe, Bool.not_eq_true', decide_eq_false_iff_not] at *
   exact List.not_lt.mpr (List.le_trans (List.not_lt.mp h1) (List.not_lt.mp h2))
+
+theorem nameLe_antisymm (a b : Name) (h1 : nameLe a b = true) (h2 : nameLe b a = true) : a = b := by
+  simp only [nameLe, Bool.not_eq_true', decide_eq_false_iff_not] at *
+  exact List.le_antisymm (List.not_lt.mp h1) (List.not_lt.mp h2)
+
+/-- `normDirs` does not see the order of two blocks of applications with no common name -/
+theorem normDirs_swap (D A F : List PDirective) (h : ∀ x ∈ A, ∀ y ∈ F, x.name ≠ y.name) :
+    normDirs (D ++ (A ++ F)) = normDirs (D ++ (F ++ A)) := by
+  unfold normDirs
+  have tr : ∀ a b c : PDirective, nameLe a.name b.name = true → nameLe b.name c.name = true → nameLe a.name c.name = true :=
+    fun a b c => nameLe_trans _ _ _
+  have tot : ∀ a b : PDirective, (nameLe a.name b.name || nameLe b.name a.name) = true := fun a b => nameLe_total _ _
+  apply AGV.Lemmas.SdlSort.mergeSort_prefix (fun a b : PDirective => nameLe a.name b.name) tr tot
+  apply AGV.Lemmas.SdlSort.mergeSort_append_comm (fun a b : PDirective => nameLe a.name b.name) tr tot
+  intro x hx y hy hxy
+  exact h x hx y hy (nameLe_antisymm _ _ hxy.1 hxy.2)
+
+theorem cDirs_swap (D A F : List PDirective) (h : ∀ x ∈ A, ∀ y ∈ F, x.name ≠ y.name) :
+    cDirs (D ++ (A ++ F)) = cDirs (D ++ (F ++ A)) := by
+  unfold cDirs; rw [normDirs_swap D A F h]
+
+/-- the custom applications of an item share no name with its federation attributes -/
+def AppsDisjoint (o : Opts) (a : Attrs) : Prop := ∀ x ∈ a.dirs, ∀ y ∈ fedApps o a, x.name ≠ y.name
+
+theorem appsDisjoint (o : Opts) (a : Attrs) (h : o.federation = true → appsFedOk a = true) : AppsDisjoint o a := by
+  intro x hx y hy
+  unfold fedApps at hy
+  split at hy
+  · rename_i hf
+    have hx' := List.all_eq_true.mp (h hf) x hx
+    simp only [Bool.and_eq_true, Bool.not_eq_true', decide_eq_false_iff_not] at hx'
+    rcases List.mem_append.mp hy with hy | hy
+    · cases hi : a.inacc
+      · rw [hi] at hy; cases hy
+      · rw [hi] at hy; simp only [if_true, List.mem_singleton] at hy; subst hy; exact hx'.2
+    · obtain ⟨t, _, rfl⟩ := List.mem_map.mp hy; exact hx'.1
+  · cases hy
+
+theorem cDirs_fieldApps (o : Opts) (a : Attrs) (h : AppsDisjoint o a) :
+    cDirs ((fieldApps o a).map dDir) = cDirs (dDirs o a) := by
+  rw [dDirs_apps]
+  simp only [fieldApps, itemApps, List.map_append]
+  apply cDirs_swap
+  intro x hx y hy
+  obtain ⟨x', hx', rfl⟩ := List.mem_map.mp hx
+  obtain ⟨y', hy', rfl⟩ := List.mem_map.mp hy
+  exact h x' hx' y' hy'
+
+theorem cField_xField (o : Opts) (f : FieldDef) (h : AppsDisjoint o f.a) : cField (xField o f) = cField (dField o f) := by
+  simp only [cField, xField, dField, cDirs_fieldApps o f.a h]
+
+theorem dDirs_type (o : Opts) (a : Attrs) (ha : TypeAttrs a) : dDirs o a = (fedApps o a ++ a.dirs).map dDir := by
+  rw [dDirs_apps]; simp [itemApps, ha.dep, depApps]
+
+theorem cFields_xFields (o : Opts) (fs : List FieldDef) (h : ∀ f ∈ fs, AppsDisjoint o f.a) :
+    (xFields o fs).map cField = (dFields o fs).map cField := by
+  simp only [xFields, dFields, List.map_map]
+  apply List.map_congr_left
+  intro f hf
+  exact cField_xField o f (h f ((sorted_mem _ _ _ _).mp hf))
+
+theorem typeFedOk_fields (o : Opts) (n : Text) (a : Attrs) (fs : List FieldDef)
+    (h : o.federation = true → (!(n = s "Any") && appsFedOk a && fs.all fieldFedOk) = true) :
+    (o.federation = true → appsFedOk a = true) ∧ (∀ f ∈ fs, AppsDisjoint o f.a) := by
+  refine ⟨fun hf => ?_, fun f hf => appsDisjoint o f.a (fun hfed => ?_)⟩
+  · have := h hf; simp only [Bool.and_eq_true] at this; exact this.1.2
+  · have := h hfed
+    simp only [Bool.and_eq_true, List.all_eq_true] at this
+    have := this.2 f hf
+    simp only [fieldFedOk, Bool.and_eq_true] at this
+    exact this.1.1.1
+
+/-- the definition the exported text denotes and the definition `describe` requires are the same
+    up to the order of differently named directive applications -/
+theorem cDef_xType (o : Opts) (t : TypeDef) (ht : TypeAttrs (tdAttrs t)) (hF : o.federation = true → typeFedOk t = true)
+    (hAny : (o.federation && decide (t.name = s "Any")) = false) : (xType o t).map cDef = (dType o t).map cDef := by
+  cases t with
+  | scalar n a url =>
+    have hs : isSystemScalar o (.scalar n a url) = builtinScalars.contains n := by
+      have hA : (o.federation && federationScalars.contains n) = false := by
+        have h2 : (o.federation && decide (n = s "Any")) = false := hAny
+        cases hf : o.federation
+        · rfl
+        · rw [hf] at h2
+          have : ¬ n = s "Any" := by simpa using h2
+          simp [federationScalars, this]
+      simp only [isSystemScalar, hA, Bool.or_false, systemScalars_builtin]
+    simp only [xType, dType, hs, dDirs_type o a ht, typeApps, specApps, List.map_append]
+    cases builtinScalars.contains n
+    · cases o.specifiedBy <;> cases url <;> simp [dDir, SValue.toP]
+    · rfl
+  | object n a ext impls fs =>
+    obtain ⟨h1, h2⟩ := typeFedOk_fields o n a fs hF
+    have hd : cDirs ((a.dirs ++ fedApps o a).map dDir) = cDirs (dDirs o a) := by
+      rw [dDirs_type o a ht]
+      have := cDirs_swap [] (a.dirs.map dDir) ((fedApps o a).map dDir) (by
+        intro x hx y hy
+        obtain ⟨x', hx', rfl⟩ := List.mem_map.mp hx
+        obtain ⟨y', hy', rfl⟩ := List.mem_map.mp hy
+        exact appsDisjoint o a h1 x' hx' y' hy')
+      simpa [List.map_append] using this
+    simp only [xType, dType, Option.map_some, cDef, cBody, typeApps, hd, cFields_xFields o fs h2]
+  | interface n a ext impls fs =>
+    obtain ⟨h1, h2⟩ := typeFedOk_fields o n a fs hF
+    simp only [xType, dType, Option.map_some, cDef, cBody, typeApps, tdAttrs, dDirs_type o a ht, cFields_xFields o fs h2]
+  | union n a ms => simp only [xType, dType, typeApps, tdAttrs, dDirs_type o a ht]
+  | «enum» n a vs => simp only [xType, dType, typeApps, tdAttrs, dDirs_type o a ht]
+  | input n a oneof fs =>
+    simp only [xType, dType, typeApps, dDirs_type o a ht, List.map_append]
+    cases oneof <;> simp [dDir]
+
+-- ------------------------------------------------------------------ the whole document
 
 /-- sorting a sorted list again changes nothing -/
 theorem sorted_sortByName {α : Type} (nm : α → Text) (xs : List α) : sorted true nm (sortByName nm xs) = sortByName nm xs := by
@@ -144,100 +286,301 @@ theorem directive_filter (S : Schema) (d : DirDef) :
     have h3 : d.name ≠ s "oneOf" := by intro e; exact hb (by rw [e]; decide)
     simp [hb, directivePrinted, h1, h2, h3]
 
-theorem Lx_typeDefs_then (o : Opts) (ho : o.federation = false) (L : List TypeDef) (hL : ∀ t ∈ L, SkelType t)
-    (rest : Text) (ts : List Tok) (h : Lx rest ts) :
-    Lx ((L.map (exportType Defects.none o)).flatten ++ rest) (L.flatMap (defToks o) ++ ts) := by
-  induction L with
-  | nil => simpa using h
-  | cons t L ih =>
-    have := Lx_typeDef o ho t (hL t List.mem_cons_self) _ _ (ih (fun x hx => hL x (List.mem_cons_of_mem _ hx)))
-    simpa [List.append_assoc] using this
-
-theorem dirDefsToks_length (ds : List DirDef) : ds.length ≤ (ds.flatMap dirDefToks).length := by
+theorem dirDefsToks_length (o : Opts) (ds : List DirDef) : ds.length ≤ (ds.flatMap (dirDefToks o)).length := by
   induction ds with
   | nil => simp
   | cons d ds ih =>
-    have : 1 ≤ (dirDefToks d).length := by
+    have : 1 ≤ (dirDefToks o d).length := by
       unfold dirDefToks; simp; omega
     simp at ih ⊢; omega
 
-theorem schemaToks_end (S : Schema) : DefEnd (schemaToks S) ∧ schemaToks S ≠ [] := by
-  unfold schemaToks; exact ⟨DefEnd.name _ _, by simp⟩
+theorem composeGroups_nil (ds : List DirDef) (h : ∀ d ∈ ds, d.composable = none) : composeGroups ds = [] := by
+  unfold composeGroups
+  generalize ([] : List (Text × List Text)) = acc
+  induction ds generalizing acc with
+  | nil => rfl
+  | cons d ds ih =>
+    rw [List.foldl_cons, h d List.mem_cons_self]
+    exact ih (fun x hx => h x (List.mem_cons_of_mem _ hx)) acc
 
-/-- The whole document of a plain export: for every well-formed schema (`schemaOk`, decidable)
-    and every sorting / indentation / description-style / specifiedBy option, the exported text —
-    lexed by the specification's lexer, parsed by the reference parser — IS the document
-    `describe` requires (with the built-in directive definitions the exporter chose to write). -/
-theorem parse_document (o : Opts) (ho : o.federation = false) (S : Schema) (hS : schemaOk S = true) :
-    parseSchema (exportSdl Defects.none S o) =
-      some (describe o S (allDirectives S) (composeGroups (allDirectives S)) (presentOf S)) := by
+theorem systemDirectives_noCompose : ∀ d ∈ systemDirectives, d.composable = none := by decide
+
+/-- the types and directive definitions the exporter writes, in its order -/
+def exportedTypes (o : Opts) (S : Schema) : List TypeDef := (sortByName TypeDef.name S.types).filter (typeExported o)
+def exportedDirs (S : Schema) : List DirDef := (allDirectives S).filter (directivePrinted S)
+
+/-- the schema definition (plain export) / the `@link` schema extension (federation export) -/
+def schemaPartToks (o : Opts) (S : Schema) : List Tok := if o.federation then fedSchemaToks else schemaToks S
+def xSchema (o : Opts) (S : Schema) : SDef :=
+  if o.federation then .schema true [linkDir fedUrl federationImportNames] none none none
+  else .schema false [] (some S.query) S.mutation none
+
+/-- the document the exported text denotes: `describe`'s, with the directive applications of
+    fields and object types in the exporter's order -/
+def xDoc (o : Opts) (S : Schema) : List SDef :=
+  (exportedTypes o S).filterMap (xType o) ++ ((exportedDirs S).map dDirective ++ [xSchema o S])
+
+theorem schemaPart (o : Opts) (S : Schema) :
+    DefEnd (schemaPartToks o S) ∧ schemaPartToks o S ≠ [] ∧ pDef (schemaPartToks o S) = some (xSchema o S, []) := by
+  unfold schemaPartToks xSchema
+  split
+  · exact ⟨DefEnd.name _ _, by simp [fedSchemaToks], pDef_fedSchema⟩
+  · exact ⟨DefEnd.name _ _, by simp [schemaToks], pDef_schema S⟩
+
+/-- the token sequence of the whole exported document -/
+def docToks (o : Opts) (S : Schema) : List Tok :=
+  (exportedTypes o S).flatMap (defToks o) ++ ((exportedDirs S).flatMap (dirDefToks o) ++ schemaPartToks o S)
+
+theorem exported_wf (o : Opts) (S : Schema) (hS : schemaOk S = true) (hF : o.federation = true → federationOk S = true) :
+    (∀ t ∈ exportedTypes o S, SkelType t ∧ FedFields o t) ∧ (∀ d ∈ exportedDirs S, SkelDirDef d) := by
   simp only [schemaOk, Bool.and_eq_true, List.all_eq_true] at hS
   obtain ⟨⟨⟨hq, hm⟩, hty⟩, hdd⟩ := hS
-  -- the type definitions
-  have hfilt : (sorted true TypeDef.name S.types).filter
-      (fun t => !startsDunder t.name && !(o.federation && (federationTypeNames.contains t.name || t.name = kwT "Any"))) =
-      (sortByName TypeDef.name S.types).filter (typeExported o) := by
-    have : sorted true TypeDef.name S.types = sortByName TypeDef.name S.types := rfl
-    rw [this]
-    congr 1
-    funext t
-    have : startsDunder t.name = startsWith2Underscores t.name := by
-      unfold startsDunder startsWith2Underscores
-      split <;> simp_all
-    simp [typeExported, ho, this]
-  generalize hLdef : (sortByName TypeDef.name S.types).filter (typeExported o) = L at hfilt
-  have hL : ∀ t ∈ L, SkelType t := by
+  have hL : ∀ t ∈ exportedTypes o S, SkelType t ∧ FedFields o t := by
     intro t ht
-    rw [← hLdef] at ht
-    exact typeOk_sound (hty t (List.mem_mergeSort.mp (List.mem_filter.mp ht).1))
-  -- the directive definitions
-  have hdfilt : (sorted true (·.name) (allDirectives S)).filter
-      (fun d => !builtinDirectiveNames.contains d.name || (presentOf S).contains d.name) =
-      (allDirectives S).filter (directivePrinted S) := by
-    have : sorted true (·.name) (allDirectives S) = allDirectives S := sorted_sortByName _ _
-    rw [this]
-    congr 1
-    funext d
-    exact directive_filter S d
-  generalize hDdef : (allDirectives S).filter (directivePrinted S) = Ds at hdfilt
-  have hDs : ∀ d ∈ Ds, SkelDirDef d := by
+    have hmem : t ∈ S.types := List.mem_mergeSort.mp (List.mem_filter.mp ht).1
+    refine ⟨typeOk_sound (hty t hmem), ?_⟩
+    cases hf : o.federation with
+    | false => cases t <;> simp [FedFields, hf]
+    | true =>
+      have hfo := hF hf
+      simp only [federationOk, Bool.and_eq_true, List.all_eq_true] at hfo
+      have ht2 := hfo.2 t hmem
+      cases t with
+      | object n a e i fs =>
+        simp only [typeFedOk, Bool.and_eq_true, List.all_eq_true] at ht2
+        intro f hf'
+        have := ht2.2 f hf'
+        simp only [fieldFedOk, Bool.and_eq_true, Bool.not_eq_true', decide_eq_false_iff_not] at this
+        simp [this.1.2, this.2]
+      | interface n a e i fs =>
+        simp only [typeFedOk, Bool.and_eq_true, List.all_eq_true] at ht2
+        intro f hf'
+        have := ht2.2 f hf'
+        simp only [fieldFedOk, Bool.and_eq_true, Bool.not_eq_true', decide_eq_false_iff_not] at this
+        simp [this.1.2, this.2]
+      | scalar n a u => trivial
+      | union n a m => trivial
+      | «enum» n a v => trivial
+      | input n a oo f => trivial
+  have hDs : ∀ d ∈ exportedDirs S, SkelDirDef d := by
     intro d hd
-    rw [← hDdef] at hd
     have hd' := List.mem_mergeSort.mp (List.mem_filter.mp hd).1
     rcases List.mem_append.mp hd' with h | h
     · exact dirDefOk_sound (hdd d h)
     · exact dirDefOk_sound (List.all_eq_true.mp systemDirectives_ok d (List.mem_filter.mp h).1)
-  -- the text and its tokens
+  exact ⟨hL, hDs⟩
+
+/-- CHARACTERS TO TOKENS, every option set: the exported text of a well-formed schema is, for the
+    specification's lexer, exactly the token sequence `docToks` (every separator the exporter
+    writes — blanks, tabs, line ends, commas — is ignored; every lexeme ends where the exporter
+    ends it). -/
+theorem Lx_document (o : Opts) (S : Schema) (hS : schemaOk S = true) (hF : o.federation = true → federationOk S = true) :
+    Lx (exportSdl Defects.none S o) (docToks o S) := by
+  obtain ⟨hL, hDs⟩ := exported_wf o S hS hF
+  simp only [schemaOk, Bool.and_eq_true, List.all_eq_true] at hS
+  obtain ⟨⟨⟨hq, hm⟩, hty⟩, hdd⟩ := hS
   have hm' : ∀ m, S.mutation = some m → isName m = true := by
     intro m e; rw [e] at hm; exact hm
-  have hlx : Lx (exportSdl Defects.none S o) (L.flatMap (defToks o) ++ (Ds.flatMap dirDefToks ++ schemaToks S)) := by
+  unfold docToks
+  -- the text and its tokens
+  have key : ∀ (txt : Text), Lx txt (schemaPartToks o S) →
+      Lx ((((exportedTypes o S).map (exportType Defects.none o)).flatten) ++
+        ((((exportedDirs S).map (fun d => directiveSdl Defects.none o d ++ ['\n'])).flatten) ++ txt))
+        ((exportedTypes o S).flatMap (defToks o) ++ ((exportedDirs S).flatMap (dirDefToks o) ++ schemaPartToks o S)) :=
+    fun txt h1 => Lx_typeDefs_then o _ hL _ _ (Lx_dirDefs o _ hDs _ _ h1)
+  cases hf : o.federation with
+  | false =>
     have h1 := Lx_schema o S hq hm'
-    have h2 := Lx_dirDefs o ho Ds hDs _ _ h1
-    have h3 := Lx_typeDefs_then o ho L hL _ _ h2
+    have h3 := key _ (by simpa [schemaPartToks, hf] using h1)
     cases hmu : S.mutation with
-    | none => simp only [hmu] at h3; simpa [exportSdl, hLdef, hDdef, ho, hmu, List.append_assoc] using h3
-    | some m => simp only [hmu] at h3; simpa [exportSdl, hLdef, hDdef, ho, hmu, List.append_assoc] using h3
-  -- parsing
-  have hdesc : describe o S (allDirectives S) (composeGroups (allDirectives S)) (presentOf S) =
-      L.filterMap (dType o) ++ (Ds.map dDirective ++ [.schema false [] (some S.query) S.mutation none]) := by
-    rw [describe, hfilt, hdfilt]
-    simp [dSchema, ho]
-  rw [hdesc]
+    | none => simp only [hmu] at h3; simpa [exportSdl, exportedTypes, exportedDirs, hf, hmu, List.append_assoc] using h3
+    | some m => simp only [hmu] at h3; simpa [exportSdl, exportedTypes, exportedDirs, hf, hmu, List.append_assoc] using h3
+  | true =>
+    have hfo := hF hf
+    simp only [federationOk, Bool.and_eq_true, List.all_eq_true] at hfo
+    have hg : composeGroups (allDirectives S) = [] := by
+      apply composeGroups_nil
+      intro d hd
+      rcases List.mem_append.mp (List.mem_mergeSort.mp hd) with h | h
+      · have := hfo.1 d h
+        cases hc : d.composable with
+        | none => rfl
+        | some u => rw [hc] at this; cases this
+      · exact systemDirectives_noCompose d (List.mem_filter.mp h).1
+    have h1 := Lx_fedSchema o (if o.compose then ['\n'] else []) (by cases o.compose <;> simp)
+    have h3 := key _ (by simpa [schemaPartToks, hf] using h1)
+    cases hc : o.compose <;>
+      (simp only [hc] at h3; simpa [exportSdl, exportedTypes, exportedDirs, hf, hc, hg, List.append_assoc] using h3)
+
+/-- THE WHOLE DOCUMENT, every option set: for a well-formed schema (`schemaOk`; for a federation
+    export also `federationOk`) the exported text — lexed by the specification's lexer, parsed by
+    the reference parser — is the document `xDoc`. -/
+theorem parse_xDoc (o : Opts) (S : Schema) (hS : schemaOk S = true) (hF : o.federation = true → federationOk S = true) :
+    parseSchema (exportSdl Defects.none S o) = some (xDoc o S) := by
+  obtain ⟨hL, hDs⟩ := exported_wf o S hS hF
+  have hlx := Lx_document o S hS hF
+  unfold docToks at hlx
   unfold parseSchema
   rw [hlx.tokens]
-  simp only [parseTokens]
-  have hb1 := defs_le_toks o ho L hL
-  have hb2 := dirDefsToks_length Ds
-  obtain ⟨hse, hsne⟩ := schemaToks_end S
-  have hfuel : (L.flatMap (defToks o) ++ (Ds.flatMap dirDefToks ++ schemaToks S)).length + 1 =
-      (((L.flatMap (defToks o)).length - (L.filterMap (dType o)).length + ((Ds.flatMap dirDefToks).length - Ds.length) +
-        (schemaToks S).length) + 1 + Ds.length) + (L.filterMap (dType o)).length := by
+  simp only [parseTokens, xDoc]
+  have hL1 : ∀ t ∈ exportedTypes o S, SkelType t := fun t ht => (hL t ht).1
+  have hb1 := defs_le_toks o _ hL1
+  have hb2 := dirDefsToks_length o (exportedDirs S)
+  obtain ⟨hse, hsne, hsp⟩ := schemaPart o S
+  have hfuel : ((exportedTypes o S).flatMap (defToks o) ++ ((exportedDirs S).flatMap (dirDefToks o) ++ schemaPartToks o S)).length + 1 =
+      ((((exportedTypes o S).flatMap (defToks o)).length - ((exportedTypes o S).filterMap (xType o)).length +
+        (((exportedDirs S).flatMap (dirDefToks o)).length - (exportedDirs S).length) +
+        (schemaPartToks o S).length) + 1 + (exportedDirs S).length) + ((exportedTypes o S).filterMap (xType o)).length := by
     simp only [List.length_append]; omega
   rw [hfuel]
-  have hR : DefEnd (Ds.flatMap dirDefToks ++ schemaToks S) := dirDefsToks_end Ds _ hse
-  rw [pDefs_toks_then o ho L hL _ hR (by intro e; exact hsne (List.append_eq_nil_iff.mp e).2)]
-  rw [pDefs_dirDefs_then o ho Ds hDs _ hse hsne]
-  rw [pDefs, pDef_schema]
+  have hR : DefEnd ((exportedDirs S).flatMap (dirDefToks o) ++ schemaPartToks o S) := dirDefsToks_end o _ _ hse
+  rw [pDefs_toks_then o _ hL1 _ hR (by intro e; exact hsne (List.append_eq_nil_iff.mp e).2)]
+  rw [pDefs_dirDefs_then o _ hDs _ hse hsne]
+  rw [pDefs, hsp]
   simp
+
+-- ------------------------------------------------------------------ the document `describe` requires
+
+theorem startsDunder_eq (n : Text) : startsDunder n = startsWith2Underscores n := by
+  unfold startsDunder startsWith2Underscores
+  split <;> simp_all
+
+/-- the types `describe` lists: those the exporter writes, except `Any` in a federation export -/
+theorem describedTypes (o : Opts) (S : Schema) :
+    (sorted true TypeDef.name S.types).filter
+      (fun t => !startsDunder t.name && !(o.federation && (federationTypeNames.contains t.name || t.name = kwT "Any"))) =
+    (exportedTypes o S).filter (fun t => !(o.federation && decide (t.name = s "Any"))) := by
+  have : sorted true TypeDef.name S.types = sortByName TypeDef.name S.types := rfl
+  rw [this, exportedTypes, List.filter_filter]
+  congr 1
+  funext t
+  have h1 : federationTypeNames.contains t.name = federationTypes.contains t.name := by
+    simp [federationTypeNames, federationTypes, s]
+  simp only [typeExported, startsDunder_eq, h1, kwT, s]
+  cases o.federation <;> cases startsWith2Underscores t.name <;> cases federationTypes.contains t.name <;> simp
+  congr
+
+theorem describedDirs (S : Schema) :
+    (sorted true (·.name) (allDirectives S)).filter
+      (fun d => !builtinDirectiveNames.contains d.name || (presentOf S).contains d.name) = exportedDirs S := by
+  have : sorted true (·.name) (allDirectives S) = allDirectives S := sorted_sortByName _ _
+  rw [this, exportedDirs]
+  congr 1
+  funext d
+  exact directive_filter S d
+
+theorem filterMap_filter_none {α β : Type} (f : α → Option β) (q : α → Bool) :
+    ∀ (L : List α), (∀ t ∈ L, q t = false → f t = none) → (L.filter q).filterMap f = L.filterMap f
+  | [], _ => rfl
+  | t :: L, h => by
+    have ih := filterMap_filter_none f q L (fun x hx => h x (List.mem_cons_of_mem _ hx))
+    cases hq : q t
+    · simp [List.filter_cons, hq, List.filterMap_cons, h t List.mem_cons_self hq, ih]
+    · simp [List.filter_cons, hq, List.filterMap_cons, ih]
+
+theorem filterMap_map_congr {α β γ : Type} (f f' : α → Option β) (g : β → γ) :
+    ∀ (L : List α), (∀ t ∈ L, (f t).map g = (f' t).map g) → (L.filterMap f).map g = (L.filterMap f').map g
+  | [], _ => rfl
+  | t :: L, h => by
+    have ih := filterMap_map_congr f f' g L (fun x hx => h x (List.mem_cons_of_mem _ hx))
+    have ht := h t List.mem_cons_self
+    cases h1 : f t <;> cases h2 : f' t <;> simp [List.filterMap_cons, h1, h2, ih] <;> simp [h1, h2] at ht
+    exact ht
+
+theorem xType_plain (o : Opts) (ho : o.federation = false) (t : TypeDef) (ht : TypeAttrs (tdAttrs t)) : xType o t = dType o t := by
+  have hfa : ∀ a : Attrs, fedApps o a = [] := by intro a; simp [fedApps, ho]
+  have hxf : ∀ fs, xFields o fs = dFields o fs := by
+    intro fs
+    simp only [xFields, dFields]
+    apply List.map_congr_left
+    intro f _
+    simp [xField, dField, fieldApps, dDirs_apps, itemApps, hfa]
+  cases t with
+  | scalar n a url =>
+    simp only [xType, dType, isSystemScalar, ho, Bool.false_and, Bool.or_false, systemScalars_builtin, typeApps, specApps,
+      dDirs_type o a ht, hfa, List.nil_append, List.map_append]
+    cases builtinScalars.contains n
+    · cases o.specifiedBy <;> cases url <;> simp [dDir, SValue.toP]
+    · rfl
+  | object n a ext impls fs => simp [xType, dType, typeApps, dDirs_type o a ht, hfa, hxf]
+  | interface n a ext impls fs => simp [xType, dType, typeApps, tdAttrs, dDirs_type o a ht, hfa, hxf]
+  | union n a ms => simp [xType, dType, typeApps, tdAttrs, dDirs_type o a ht]
+  | «enum» n a vs => simp [xType, dType, typeApps, tdAttrs, dDirs_type o a ht]
+  | input n a oneof fs =>
+    simp only [xType, dType, typeApps, dDirs_type o a ht, List.map_append]
+    cases oneof <;> simp [dDir]
+
+theorem typeAttrs_of_ok {S : Schema} (hS : schemaOk S = true) : ∀ t ∈ S.types, TypeAttrs (tdAttrs t) := by
+  simp only [schemaOk, Bool.and_eq_true, List.all_eq_true] at hS
+  intro t ht
+  have := typeOk_sound (hS.1.2 t ht)
+  cases t <;> first | exact this.2.1 | exact this.2
+
+/-- for a plain export the document the text denotes IS the document `describe` requires -/
+theorem xDoc_plain (o : Opts) (ho : o.federation = false) (S : Schema) (hS : schemaOk S = true) :
+    xDoc o S = describe o S (allDirectives S) (composeGroups (allDirectives S)) (presentOf S) := by
+  have hta := typeAttrs_of_ok hS
+  rw [describe, describedTypes, describedDirs, xDoc]
+  have h1 : (exportedTypes o S).filter (fun t => !(o.federation && decide (t.name = s "Any"))) = exportedTypes o S := by
+    simp [ho]
+  rw [h1]
+  have h2 : (exportedTypes o S).filterMap (xType o) = (exportedTypes o S).filterMap (dType o) := by
+    have key : ∀ L : List TypeDef, (∀ t ∈ L, xType o t = dType o t) → L.filterMap (xType o) = L.filterMap (dType o) := by
+      intro L hL
+      induction L with
+      | nil => rfl
+      | cons t L ih =>
+        simp only [List.filterMap_cons, hL t List.mem_cons_self, ih (fun x hx => hL x (List.mem_cons_of_mem _ hx))]
+    exact key _ (fun t ht => xType_plain o ho t (hta t (List.mem_mergeSort.mp (List.mem_filter.mp ht).1)))
+  rw [h2]
+  simp [xSchema, dSchema, ho]
+
+/-- for EVERY export the document the text denotes is the document `describe` requires up to the
+    order of differently named directive applications (the comparison `cDoc` makes) -/
+theorem xDoc_cDoc (o : Opts) (S : Schema) (hS : schemaOk S = true) (hF : o.federation = true → federationOk S = true) :
+    cDoc (xDoc o S) = cDoc (describe o S (allDirectives S) (composeGroups (allDirectives S)) (presentOf S)) := by
+  cases hf : o.federation with
+  | false => rw [xDoc_plain o hf S hS]
+  | true =>
+    have hta := typeAttrs_of_ok hS
+    have hfo := hF hf
+    simp only [federationOk, Bool.and_eq_true, List.all_eq_true] at hfo
+    have hmemS : ∀ t ∈ exportedTypes o S, t ∈ S.types := fun t ht => List.mem_mergeSort.mp (List.mem_filter.mp ht).1
+    have hg : composeGroups (allDirectives S) = [] := by
+      apply composeGroups_nil
+      intro d hd
+      rcases List.mem_append.mp (List.mem_mergeSort.mp hd) with h | h
+      · have := hfo.1 d h
+        cases hc : d.composable with
+        | none => rfl
+        | some u => rw [hc] at this; cases this
+      · exact systemDirectives_noCompose d (List.mem_filter.mp h).1
+    rw [describe, describedTypes, describedDirs, xDoc, hg]
+    -- `Any`
+    have hA : ((exportedTypes o S).filter (fun t => !(o.federation && decide (t.name = s "Any")))).filterMap (xType o) =
+        (exportedTypes o S).filterMap (xType o) := by
+      apply filterMap_filter_none
+      intro t ht hq
+      have hn : t.name = s "Any" := by simpa [hf] using hq
+      have ht2 := hfo.2 t (hmemS t ht)
+      cases t with
+      | scalar n a u =>
+        have : n = s "Any" := hn
+        simp [xType, isSystemScalar, hf, federationScalars, this]
+      | object n a e i fs => simp [typeFedOk, TypeDef.name] at ht2 hn; exact absurd hn ht2.1.1
+      | interface n a e i fs => simp [typeFedOk, TypeDef.name] at ht2 hn; exact absurd hn ht2.1.1
+      | union n a m => simp [typeFedOk, TypeDef.name] at ht2 hn; exact absurd hn ht2.1
+      | «enum» n a v => simp [typeFedOk, TypeDef.name] at ht2 hn; exact absurd hn ht2.1.1
+      | input n a oo fs => simp [typeFedOk, TypeDef.name] at ht2 hn; exact absurd hn ht2.1.1
+    have hB : (((exportedTypes o S).filter (fun t => !(o.federation && decide (t.name = s "Any")))).filterMap (xType o)).map cDef =
+        (((exportedTypes o S).filter (fun t => !(o.federation && decide (t.name = s "Any")))).filterMap (dType o)).map cDef := by
+      apply filterMap_map_congr
+      intro t ht
+      have ht' := List.mem_filter.mp ht
+      exact cDef_xType o t (hta t (hmemS t ht'.1)) (fun _ => hfo.2 t (hmemS t ht'.1)) (by have := ht'.2; rw [Bool.not_eq_true'] at this; exact this)
+    have hC : [xSchema o S] = dSchema o S [] := by
+      simp [xSchema, dSchema, hf, fedUrl]
+    unfold cDoc
+    rw [← hA, List.map_append, List.map_append, List.map_append, List.map_append, hB, hC, List.append_assoc]
 
 end AGV.Lemmas.SdlSkeleton
